@@ -168,7 +168,7 @@ def run(ctx):
     samples = []
     n = 80 if ctx.quick() else 4000
     for _ in range(n):
-        prog = D.gen_dep_program(ctx.rng, steer=ctx.rng.choice([None, None, None, "literals", "mixed", "kwonly"]))
+        prog = D.gen_dep_program(ctx.rng, steer=ctx.rng.choice([None, None, None, "literals", "mixed", "kwonly", "keyed_other"]))
         check(ctx, prog, stats, samples)
         stats["programs"] += 1
         if len(ctx.violations) > 5:
